@@ -87,7 +87,7 @@ class Run:
             self.extra_ok[f] = ok
             if not ok:
                 self.proof_ok = False
-                self.broken.append('theorem file %s: %s' % (f, _last_error(out)))
+                self.broken.append('theorem file %s: %s%s' % (f, _last_error(out), _blame(f, out)))
         bad = core.coq_hygiene()
         if bad:
             raise core.MachineryError('forbidden declarations in the development:\n' + '\n'.join(bad))
@@ -201,6 +201,37 @@ def _last_error(out):
     lines = out.strip().split('\n')
     keep = [l for l in lines if 'Error' in l or 'error' in l or l.startswith('File ')]
     return ' | '.join((keep or lines)[-4:])[:600]
+
+
+def _blame(prop_file, out):
+    """Which lemma failed to compile and which theorems of `prop_file` rest on it (for the violation message)."""
+    import re
+    try:
+        m = None
+        for m in re.finditer(r'File "\./([^"]+)", line (\d+)', out):
+            pass
+        if not m:
+            return ''
+        path, line = m.group(1), int(m.group(2))
+        src = open(os.path.join(core.COQ, path)).read().split('\n')
+        lemma = None
+        for l in reversed(src[:line]):
+            mm = re.match(r'^\s*(?:Lemma|Theorem|Corollary|Fact|Example)\s+(\w+)', l)
+            if mm:
+                lemma = mm.group(1)
+                break
+        if not lemma:
+            return ''
+        if path == prop_file:
+            return ' [theorem %s]' % lemma
+        text = open(os.path.join(core.COQ, prop_file)).read()
+        hit = []
+        for mm in re.finditer(r'(?ms)^Theorem\s+(\w+)(.*?)Qed\.', text):
+            if re.search(r'\b%s\b' % re.escape(lemma), mm.group(2)):
+                hit.append(mm.group(1))
+        return ' [lemma %s of %s; theorems resting on it: %s]' % (lemma, path, ', '.join(hit) if hit else 'through other lemmas of that file')
+    except Exception:
+        return ''
 
 
 def _size(c):
